@@ -171,6 +171,46 @@ def directed_prefixes(rng: random.Random, pool: list) -> list[list[dict]]:
     ]
 
 
+def nested_pool(rng: random.Random) -> list:
+    """three members, each built on top of the previous one: the same compound node objects are reachable from
+    several roots"""
+    g = gen.Gen(rng, names=("x", "y"), floats_only=True)
+    x = X.Variable("x")
+    u = rng.choice([X.NthPower(x, 2), X.Multiply(x, g.expr(1)), X.Add(X.Sine(x), g.expr(1)), X.Exponential(X.Multiply(X.Constant(0.25), x))])
+    e = rng.choice([X.Sine(u), X.Multiply(u, X.Variable("y")), X.Add(u, X.Cosine(u)), X.Divide(u, X.Add(X.NthPower(X.Variable("y"), 2), X.Constant(1.0)))])
+    big = rng.choice([X.Exponential(X.Multiply(X.Constant(0.125), e)), X.Multiply(e, e), X.Add(e, u, X.Variable("y")), X.Cosine(e)])
+    return [u, e, big]
+
+
+def sharing_prefixes(rng: random.Random, pool: list) -> list[list[dict]]:
+    """a derivative object of one member is asked at the caller's own Point object, a *different* member sharing nodes
+    with it is used at another point through some entry point, and the object is asked again at the identical Point"""
+    g = gen.Gen(rng, floats_only=True)
+    names = sorted(set().union(*(e._variable_names for e in pool))) or ["x"]
+    P, Q = wire.point(g.point(names)), wire.point(g.point(names))
+    out = []
+    for t in range(len(pool)):
+        vs = sorted(pool[t]._variable_names) or ["x"]
+        x = rng.choice(vs)
+        kinds = ["P", "F", "PE"] + (["D"] if len(vs) == 1 else [])
+        for o in range(len(pool)):
+            if o == t:
+                continue
+            kind = rng.choice(kinds)
+            first = rng.choice([{"op": "pobj_at", "j": 0, "i": t, "p": P, "x": x, "same": True}, {"op": "at", "i": t, "p": P, "x": x, "same": True},
+                                {"op": "diff_at", "i": t, "p": P, "x": x, "same": True}])
+            other = rng.choice(["at", "partial", "located", "diff_at", "component_at", "partial_early"])
+            out.append([{"op": "pobj_new", "i": t, "j": 0, "p": P, "x": x, "kind": kind}, dict(first),
+                        {"op": other, "i": o, "p": Q, "x": x},
+                        {"op": "pobj_at", "j": 0, "i": t, "p": P, "x": x, "same": True, "style": rng.randrange(3)},
+                        {"op": "located", "i": t, "p": P, "x": x, "same": True},
+                        {"op": "ld_new", "i": t, "j": -1, "k": 0, "p": P, "x": x, "same": True},
+                        {"op": other, "i": o, "p": Q, "x": x},
+                        {"op": "ld_query", "i": t, "k": 0, "p": P, "x": x},
+                        {"op": "component_at", "i": t, "p": P, "x": x, "same": True}])
+    return out
+
+
 def domain_prefixes(rng: random.Random, pool: list) -> list[list[dict]]:
     """histories that cross the border of the domain on the same objects: a successful evaluation
     leaves memos that must not decide the next query's domain verdict, and a failed one must not
@@ -331,7 +371,7 @@ class Runner:
         x = wire.fresh_str(op.get("x", "x"))
         # callers keep their Point objects: the same text is the same object throughout a history (two thirds of the
         # time - the rest are equal but newly built points)
-        if op["p"] in self.points and len(op["p"]) % 3:
+        if op["p"] in self.points and (op.get("same") or len(op["p"]) % 3):
             p = self.points[op["p"]]
         else:
             p = self.points[op["p"]] = wire.build_point(op["p"])
